@@ -1,10 +1,10 @@
 /-
 Cluster `obs`: what `add_or_remove_notifiers` does to the counts of registrations.
 
+`walk_did`           : whatever a walk has done, complete or interrupted, is in its
+                       undo log (hence `finish` rolls an interrupted call back exactly);
 L1 `addRemove_add`   : a registration that does not raise adds exactly the
-                       from-scratch items `hookList` (and succeeds iff `walkOk`);
-L2 `addRemove_remove`: when the from-scratch items are all held, removal does not
-                       raise and takes exactly them away.
+                       from-scratch items `hookList` (and succeeds iff `walkOk`).
 -/
 import TraitsVerif.Lemmas.ObsBasic
 namespace TraitsVerif.Model.Obs
@@ -245,114 +245,323 @@ theorem foldRes_spec (f : W → Hooks → Res) (items : W → List Item) (P : Ho
         | head => exact hQ
         | tail _ hm => exact hQ2 y' hm
 
-/-! ### L1: a registration that does not raise adds exactly `hookList` -/
+/-! ### the owner of the undo log -/
 
-theorem addRemove_add_unfold (h : Heap) (k : HKey) (extra : Bool) (ob : Observer) (cs : List Graph) (x : W) (H : Hooks) :
-    addRemove h k false extra (.node ob cs) x H =
-      (let s1 := notifStep h k false ob x H []
+theorem finish_err (rm : Bool) (r : Tr) : (finish rm r).err = r.2.2 := by
+  unfold finish; split <;> simp_all
+
+theorem finish_ok (rm : Bool) (r : Tr) (h : r.2.2 = none) : (finish rm r).H = r.1 := by
+  unfold finish; simp [h]
+
+theorem foldW_spec (f : W → Hooks → List Item → Tr) (items : W → List Item) (P : Hooks → Prop) (good Q : W → Prop)
+    (hf : ∀ y H log, good y → P H → (f y H log).2.2 = none →
+      (∀ o q, cnt (f y H log).1 o q = cnt H o q + cntItems (items y) o q) ∧ P (f y H log).1 ∧ Q y)
+    (ys : List W) (H : Hooks) (log : List Item) (hg : ∀ y ∈ ys, good y) (hP : P H)
+    (hok : (foldW f ys H log).2.2 = none) :
+    (∀ o q, cnt (foldW f ys H log).1 o q = cnt H o q + cntItems (ys.flatMap items) o q) ∧
+      P (foldW f ys H log).1 ∧ ∀ y ∈ ys, Q y := by
+  induction ys generalizing H log with
+  | nil => exact ⟨by simp [foldW, cntItems_nil], hP, by simp⟩
+  | cons y ys ih =>
+    simp only [foldW] at hok ⊢
+    cases he : (f y H log).2.2 with
+    | some e => simp [he] at hok
+    | none =>
+      simp only [he] at hok ⊢
+      obtain ⟨hc, hP', hQ⟩ := hf y H log (hg y (List.mem_cons_self ..)) hP he
+      obtain ⟨hc2, hP2, hQ2⟩ := ih _ _ (fun y' hy' => hg y' (List.mem_cons_of_mem _ hy')) hP' hok
+      refine ⟨?_, hP2, ?_⟩
+      · intro o q
+        rw [hc2, hc, List.flatMap_cons, cntItems_append]; omega
+      · intro y' hy'
+        cases hy' with
+        | head => exact hQ
+        | tail _ hm => exact hQ2 y' hm
+
+/-! ### whatever a walk has done is in its undo log -/
+
+/-- `r` is reached from `(H, log)` by acting on the items `new` (all recorded, most
+recent first): every count moved by exactly them. -/
+def Did (rm : Bool) (H : Hooks) (log : List Item) (r : Tr) : Prop :=
+  ∃ new, r.2.1 = new ++ log ∧
+    (∀ o q, (rm = true → cnt r.1 o q + cntItems new o q = cnt H o q) ∧
+            (rm = false → cnt r.1 o q = cnt H o q + cntItems new o q)) ∧ WF r.1
+
+theorem Did.refl (rm : Bool) (H : Hooks) (log : List Item) (e : Option Exc) (hw : WF H) : Did rm H log (H, log, e) :=
+  ⟨[], rfl, fun o q => ⟨fun _ => by simp [cntItems_nil], fun _ => by simp [cntItems_nil]⟩, hw⟩
+
+theorem Did.trans {rm : Bool} {H : Hooks} {log : List Item} {r1 r2 : Tr} (h1 : Did rm H log r1)
+    (h2 : Did rm r1.1 r1.2.1 r2) : Did rm H log r2 := by
+  obtain ⟨n1, e1, c1, _⟩ := h1
+  obtain ⟨n2, e2, c2, w2⟩ := h2
+  refine ⟨n2 ++ n1, by rw [e2, e1, List.append_assoc], ?_, w2⟩
+  intro o q
+  have a := c1 o q
+  have b := c2 o q
+  refine ⟨fun hr => ?_, fun hr => ?_⟩
+  · have := a.1 hr; have := b.1 hr; rw [cntItems_append]; omega
+  · have := a.2 hr; have := b.2 hr; rw [cntItems_append]; omega
+
+theorem applyOwn_did (rm : Bool) (its : List Item) (H : Hooks) (done : List Item) (hw : WF H) :
+    Did rm H done (applyOwn rm its H done) := by
+  induction its generalizing H done with
+  | nil => exact Did.refl rm H done none hw
+  | cons it its ih =>
+    cases rm with
+    | true =>
+      simp only [applyOwn, if_true]
+      cases hr : removeItem it H with
+      | error e => exact Did.refl true H done (some e) hw
+      | ok H' =>
+        have hc := cnt_removeItem hr
+        have step : Did true H done (H', it :: done, none) :=
+          ⟨[it], rfl, fun o q => ⟨fun _ => by have := hc o q; rw [cntItems_cons, cntItems_nil]; omega,
+            fun h => by cases h⟩, WF_removeItem hw hr⟩
+        exact Did.trans step (ih H' (it :: done) (WF_removeItem hw hr))
+    | false =>
+      simp only [applyOwn, Bool.false_eq_true, if_false]
+      have step : Did false H done (addItem it H, it :: done, none) :=
+        ⟨[it], rfl, fun o q => ⟨fun h => by cases h,
+          fun _ => by rw [cnt_addItem, cntItems_cons, cntItems_nil]; omega⟩, WF_addItem it H hw⟩
+      exact Did.trans step (ih _ _ (WF_addItem it H hw))
+
+theorem notifStep_did (h : Heap) (k : HKey) (rm : Bool) (ob : Observer) (x : W) (H : Hooks) (done : List Item)
+    (hw : WF H) : Did rm H done (notifStep h k rm ob x H done) := by
+  unfold notifStep
+  split
+  · split
+    · exact Did.refl rm H done _ hw
+    · exact applyOwn_did rm _ H done hw
+  · exact Did.refl rm H done _ hw
+
+theorem maintStep_did (h : Heap) (k : HKey) (rm : Bool) (ob : Observer) (cs : List Graph) (x : W) (H : Hooks)
+    (done : List Item) (hw : WF H) : Did rm H done (maintStep h k rm ob cs x H done) := by
+  unfold maintStep
+  split
+  · exact Did.refl rm H done _ hw
+  · exact applyOwn_did rm _ H done hw
+
+theorem extraStepW_did (h : Heap) (k : HKey) (rm : Bool) (g : Graph) (x : W) (H : Hooks) (log : List Item)
+    (hw : WF H) : Did rm H log (extraStepW h k rm g x H log) := by
+  unfold extraStepW
+  split
+  · exact Did.refl rm H log _ hw
+  · exact applyOwn_did rm _ H log hw
+
+theorem foldW_did (rm : Bool) (f : W → Hooks → List Item → Tr)
+    (hf : ∀ y H log, WF H → Did rm H log (f y H log)) (ys : List W) (H : Hooks) (log : List Item) (hw : WF H) :
+    Did rm H log (foldW f ys H log) := by
+  induction ys generalizing H log with
+  | nil => exact Did.refl rm H log none hw
+  | cons y ys ih =>
+    simp only [foldW]
+    have h1 := hf y H log hw
+    split
+    · exact h1
+    · exact Did.trans h1 (ih _ _ h1.2.2.2)
+
+theorem walk_rm_unfold (h : Heap) (k : HKey) (extra : Bool) (ob : Observer) (cs : List Graph) (x : W) (H : Hooks)
+    (log : List Item) :
+    walk h k true extra (.node ob cs) x H log =
+      (let r1 : Tr := if extra then extraStepW h k true (.node ob cs) x H log else (H, log, none)
+       match r1.2.2 with
+       | some _ => r1
+       | none =>
+         let r2 := walkCs h k true ob x cs r1.1 r1.2.1
+         match r2.2.2 with
+         | some _ => r2
+         | none =>
+           let s3 := maintStep h k true ob cs x r2.1 r2.2.1
+           match s3.2.2 with
+           | some _ => s3
+           | none => notifStep h k true ob x s3.1 s3.2.1) := by
+  rw [walk]; rfl
+
+theorem walk_add_unfold (h : Heap) (k : HKey) (extra : Bool) (ob : Observer) (cs : List Graph) (x : W) (H : Hooks)
+    (log : List Item) :
+    walk h k false extra (.node ob cs) x H log =
+      (let s1 := notifStep h k false ob x H log
        match s1.2.2 with
-       | some e => ⟨undo false s1.2.1 s1.1, some e⟩
+       | some _ => s1
        | none =>
          let s2 := maintStep h k false ob cs x s1.1 s1.2.1
          match s2.2.2 with
-         | some e => ⟨undo false s2.2.1 s2.1, some e⟩
+         | some _ => s2
          | none =>
-           let r3 := addRemoveCs h k false ob x cs s2.1
-           match r3.err with
-           | some e => ⟨undo false s2.2.1 r3.H, some e⟩
-           | none =>
-             let r4 := if extra then extraStep h k false (.node ob cs) x r3.H else ⟨r3.H, none⟩
-             match r4.err with
-             | some e => ⟨undo false s2.2.1 r4.H, some e⟩
-             | none => ⟨r4.H, none⟩) := by
-  rw [addRemove]; rfl
+           let r3 := walkCs h k false ob x cs s2.1 s2.2.1
+           match r3.2.2 with
+           | some _ => r3
+           | none => if extra then extraStepW h k false (.node ob cs) x r3.1 r3.2.1 else r3) := by
+  rw [walk]; rfl
+
+theorem walk_did (h : Heap) (k : HKey) : ∀ g : Graph, ∀ (rm extra : Bool) (x : W) (H : Hooks) (log : List Item),
+    WF H → Did rm H log (walk h k rm extra g x H log) := by
+  apply Graph.ind (P := fun g => ∀ (rm extra : Bool) (x : W) (H : Hooks) (log : List Item),
+    WF H → Did rm H log (walk h k rm extra g x H log))
+  intro ob cs ih rm extra x H log hw
+  have hCs : ∀ (rm : Bool) (cs' : List Graph), (∀ c ∈ cs', c ∈ cs) → ∀ H log, WF H →
+      Did rm H log (walkCs h k rm ob x cs' H log) := by
+    intro rm cs'
+    induction cs' with
+    | nil => intro _ H log hw; exact Did.refl rm H log none hw
+    | cons c cs' ihc =>
+      intro hsub H log hw
+      simp only [walkCs]
+      split
+      · exact Did.refl rm H log _ hw
+      · rename_i ys _
+        have h1 : Did rm H log (foldW (walk h k rm true c) ys H log) :=
+          foldW_did rm _ (fun y H' log' hw' => ih c (hsub c (List.mem_cons_self ..)) rm true y H' log' hw') ys H log hw
+        split
+        · exact h1
+        · exact Did.trans h1 (ihc (fun c' hc' => hsub c' (List.mem_cons_of_mem _ hc')) _ _ h1.2.2.2)
+  cases rm with
+  | true =>
+    rw [walk_rm_unfold]
+    have r1 : Did true H log (if extra then extraStepW h k true (.node ob cs) x H log else (H, log, none) : Tr) := by
+      split
+      · exact extraStepW_did h k true _ x H log hw
+      · exact Did.refl true H log none hw
+    simp only []
+    split
+    · exact r1
+    · have r2 := Did.trans r1 (hCs true cs (fun c hc => hc) _ _ r1.2.2.2)
+      split
+      · exact r2
+      · have r3 := Did.trans r2 (maintStep_did h k true ob cs x _ _ r2.2.2.2)
+        split
+        · exact r3
+        · exact Did.trans r3 (notifStep_did h k true ob x _ _ r3.2.2.2)
+  | false =>
+    rw [walk_add_unfold]
+    have s1 := notifStep_did h k false ob x H log hw
+    simp only []
+    split
+    · exact s1
+    · have s2 := Did.trans s1 (maintStep_did h k false ob cs x _ _ s1.2.2.2)
+      split
+      · exact s2
+      · have r3 := Did.trans s2 (hCs false cs (fun c hc => hc) _ _ s2.2.2.2)
+        split
+        · exact r3
+        · split
+          · exact Did.trans r3 (extraStepW_did h k false _ x _ _ r3.2.2.2)
+          · exact r3
+
+theorem applyObserversW_did (h : Heap) (k : HKey) (rm : Bool) (x : W) (gs : List Graph) (H : Hooks)
+    (log : List Item) (hw : WF H) : Did rm H log (applyObserversW h k rm x gs H log) := by
+  induction gs generalizing H log with
+  | nil => exact Did.refl rm H log none hw
+  | cons g gs ih =>
+    simp only [applyObserversW]
+    have h1 := walk_did h k g rm true x H log hw
+    split
+    · exact h1
+    · exact Did.trans h1 (ih _ _ h1.2.2.2)
+
+/-- The owner's roll-back restores every count. -/
+theorem finish_atomic (rm : Bool) (H : Hooks) (r : Tr) (hd : Did rm H [] r) (he : r.2.2 ≠ none) :
+    (∀ o q, cnt (finish rm r).H o q = cnt H o q) ∧ WF (finish rm r).H := by
+  obtain ⟨new, hlog, hc, hw⟩ := hd
+  rw [List.append_nil] at hlog
+  unfold finish
+  cases hr : r.2.2 with
+  | none => exact absurd hr he
+  | some e =>
+    simp only [hlog]
+    cases rm with
+    | true =>
+      obtain ⟨a, b⟩ := undo_rm new r.1
+      exact ⟨fun o q => by rw [a]; exact (hc o q).1 rfl, b hw⟩
+    | false =>
+      have hle : ∀ o q, cntItems new o q ≤ cnt r.1 o q := fun o q => by rw [(hc o q).2 rfl]; omega
+      obtain ⟨a, b⟩ := undo_add new r.1 hw hle
+      exact ⟨fun o q => by have := a o q; have := (hc o q).2 rfl; omega, b⟩
+
+/-! ### L1: a registration that does not raise adds exactly `hookList` -/
 
 /-- What L1 states about one walk. -/
 def AddSpec (h : Heap) (k : HKey) (g : Graph) : Prop :=
-  ∀ (extra : Bool) (x : W) (H : Hooks), (addRemove h k false extra g x H).err = none →
+  ∀ (extra : Bool) (x : W) (H : Hooks) (log : List Item), (walk h k false extra g x H log).2.2 = none →
     walkOk h extra g x = true ∧
-    (∀ o q, cnt (addRemove h k false extra g x H).H o q = cnt H o q + cntItems (hookList h k extra g x) o q) ∧
-    (WF H → WF (addRemove h k false extra g x H).H)
+    (∀ o q, cnt (walk h k false extra g x H log).1 o q = cnt H o q + cntItems (hookList h k extra g x) o q) ∧
+    (WF H → WF (walk h k false extra g x H log).1)
 
-theorem addRemoveCs_add (h : Heap) (k : HKey) (ob : Observer) (x : W) (cs : List Graph)
-    (ih : ∀ c ∈ cs, AddSpec h k c) (H : Hooks) (hok : (addRemoveCs h k false ob x cs H).err = none) :
+theorem walkCs_add (h : Heap) (k : HKey) (ob : Observer) (x : W) (cs : List Graph)
+    (ih : ∀ c ∈ cs, AddSpec h k c) (H : Hooks) (log : List Item)
+    (hok : (walkCs h k false ob x cs H log).2.2 = none) :
     walkOkCs h ob x cs = true ∧
-    (∀ o q, cnt (addRemoveCs h k false ob x cs H).H o q = cnt H o q + cntItems (hookListCs h k ob x cs) o q) ∧
-    (WF H → WF (addRemoveCs h k false ob x cs H).H) := by
-  induction cs generalizing H with
-  | nil => exact ⟨rfl, by simp [addRemoveCs, hookListCs, cntItems_nil], by simp [addRemoveCs]⟩
+    (∀ o q, cnt (walkCs h k false ob x cs H log).1 o q = cnt H o q + cntItems (hookListCs h k ob x cs) o q) ∧
+    (WF H → WF (walkCs h k false ob x cs H log).1) := by
+  induction cs generalizing H log with
+  | nil => exact ⟨rfl, by simp [walkCs, hookListCs, cntItems_nil], by simp [walkCs]⟩
   | cons c cs ihcs =>
-    simp only [addRemoveCs] at hok ⊢
+    simp only [walkCs] at hok ⊢
     cases hobj : objects h ob x with
     | error e => simp [hobj] at hok
     | ok ys =>
       simp only [hobj] at hok ⊢
-      cases hr : (foldRes (addRemove h k false true c) ys H).err with
+      cases hr : (foldW (walk h k false true c) ys H log).2.2 with
       | some e => simp [hr] at hok
       | none =>
         simp only [hr] at hok ⊢
         have hc := ih c (List.mem_cons_self ..)
-        obtain ⟨h1, h2, h3⟩ := foldRes_spec (addRemove h k false true c) (fun y => hookList h k true c y)
+        obtain ⟨h1, h2, h3⟩ := foldW_spec (walk h k false true c) (fun y => hookList h k true c y)
           (fun H' => WF H → WF H') (fun _ => True) (fun y => walkOk h true c y = true)
-          (fun y H' _ hP he => by
-            obtain ⟨a, b, d⟩ := hc true y H' he
+          (fun y H' log' _ hP he => by
+            obtain ⟨a, b, d⟩ := hc true y H' log' he
             exact ⟨b, fun hw => d (hP hw), a⟩)
-          ys H (fun _ _ => trivial) id hr
-        obtain ⟨g1, g2, g3⟩ := ihcs (fun c' hc' => ih c' (List.mem_cons_of_mem _ hc')) _ hok
+          ys H log (fun _ _ => trivial) id hr
+        obtain ⟨g1, g2, g3⟩ := ihcs (fun c' hc' => ih c' (List.mem_cons_of_mem _ hc')) _ _ hok
         refine ⟨?_, ?_, fun hw => g3 (h2 hw)⟩
         · simp only [walkOkCs, hobj, g1, Bool.and_true, List.all_eq_true]
           exact h3
         · intro o q
           rw [g2, h1, hookListCs_cons, cntItems_append, hobj]; simp only [okOr]; omega
 
-theorem extraStep_add (h : Heap) (k : HKey) (g : Graph) (x : W) (H : Hooks)
-    (hok : (extraStep h k false g x H).err = none) :
+theorem extraStepW_add (h : Heap) (k : HKey) (g : Graph) (x : W) (H : Hooks) (log : List Item)
+    (hok : (extraStepW h k false g x H log).2.2 = none) :
     isOk (extraObservables h g.ob x) = true ∧
-    (∀ o q, cnt (extraStep h k false g x H).H o q =
+    (∀ o q, cnt (extraStepW h k false g x H log).1 o q =
       cnt H o q + cntItems (extraItems g k (okOr [] (extraObservables h g.ob x))) o q) ∧
-    (WF H → WF (extraStep h k false g x H).H) := by
-  unfold extraStep at hok ⊢
+    (WF H → WF (extraStepW h k false g x H log).1) := by
+  unfold extraStepW at hok ⊢
   cases he : extraObservables h g.ob x with
   | error e => simp [he] at hok
   | ok os =>
     simp only [he] at hok ⊢
-    obtain ⟨H', ha, hc, hw⟩ := applyOwn_add (os.map (fun o => (o, NKey.maint .added g k))) H []
+    obtain ⟨H', ha, hc, hw⟩ := applyOwn_add (os.map (fun o => (o, NKey.maint .added g k))) H log
     simp only [ha]
     exact ⟨rfl, by simpa [okOr, extraItems] using hc, hw⟩
 
-theorem addRemove_add (h : Heap) (k : HKey) : ∀ g : Graph, AddSpec h k g := by
+theorem walk_add (h : Heap) (k : HKey) : ∀ g : Graph, AddSpec h k g := by
   apply Graph.ind
-  intro ob cs ih extra x H hok
-  rw [addRemove_add_unfold] at hok ⊢
+  intro ob cs ih extra x H log hok
+  rw [walk_add_unfold] at hok ⊢
   cases hobs : observables h ob x with
   | error e =>
-    -- the first step that calls `iter_observables` raises
     exfalso
     simp only [notifStep, maintStep, hobs] at hok
     by_cases hn : ob.notify = true <;> simp [hn] at hok
   | ok os =>
-    -- step 1
-    obtain ⟨H1, d1, hs1, hc1, hw1⟩ : ∃ H1 d1, notifStep h k false ob x H [] = (H1, d1, none) ∧
+    obtain ⟨H1, d1, hs1, hc1, hw1⟩ : ∃ H1 d1, notifStep h k false ob x H log = (H1, d1, none) ∧
         (∀ o q, cnt H1 o q = cnt H o q + cntItems (if ob.notify then userItems k os else []) o q) ∧
         (WF H → WF H1) := by
       unfold notifStep
       by_cases hn : ob.notify = true
-      · obtain ⟨H1, ha, hc, hw⟩ := applyOwn_add (userItems k os) H []
+      · obtain ⟨H1, ha, hc, hw⟩ := applyOwn_add (userItems k os) H log
         exact ⟨H1, _, by simp [hn, hobs]; exact ha, by simpa [hn] using hc, hw⟩
-      · exact ⟨H, [], by simp [hn], by simp [hn, cntItems_nil], id⟩
+      · exact ⟨H, log, by simp [hn], by simp [hn, cntItems_nil], id⟩
     simp only [hs1] at hok ⊢
-    -- step 2
     obtain ⟨H2, ha2, hc2, hw2⟩ := applyOwn_add (maintItems ob cs k os) H1 d1
     have hs2 : maintStep h k false ob cs x H1 d1 = (H2, (maintItems ob cs k os).reverse ++ d1, none) := by
       simp [maintStep, hobs]; exact ha2
     simp only [hs2] at hok ⊢
-    -- step 3
-    cases hr3 : (addRemoveCs h k false ob x cs H2).err with
+    cases hr3 : (walkCs h k false ob x cs H2 ((maintItems ob cs k os).reverse ++ d1)).2.2 with
     | some e => simp [hr3] at hok
     | none =>
       simp only [hr3] at hok ⊢
-      obtain ⟨w3, c3, wf3⟩ := addRemoveCs_add h k ob x cs ih H2 hr3
-      -- step 4
+      obtain ⟨w3, c3, wf3⟩ := walkCs_add h k ob x cs ih H2 _ hr3
       cases extra with
       | false =>
         simp only [Bool.false_eq_true, if_false] at hok ⊢
@@ -362,14 +571,21 @@ theorem addRemove_add (h : Heap) (k : HKey) : ∀ g : Graph, AddSpec h k g := by
         simp [cntItems_append, cntItems_nil]; omega
       | true =>
         simp only [if_true] at hok ⊢
-        cases hr4 : (extraStep h k false (.node ob cs) x (addRemoveCs h k false ob x cs H2).H).err with
-        | some e => simp [hr4] at hok
-        | none =>
-          simp only [hr4]
-          obtain ⟨w4, c4, wf4⟩ := extraStep_add h k (.node ob cs) x _ hr4
-          refine ⟨by simpa [walkOk, hobs, isOk, w3, Graph.ob] using w4, ?_, fun hw => wf4 (wf3 (hw2 (hw1 hw)))⟩
-          intro o q
-          rw [c4, c3, hc2, hc1, hookList_node, ownItems_eq h k ob cs x os hobs]
-          simp [cntItems_append, Graph.ob]; omega
+        obtain ⟨w4, c4, wf4⟩ := extraStepW_add h k (.node ob cs) x _ _ hok
+        refine ⟨by simpa [walkOk, hobs, isOk, w3, Graph.ob] using w4, ?_, fun hw => wf4 (wf3 (hw2 (hw1 hw)))⟩
+        intro o q
+        rw [c4, c3, hc2, hc1, hookList_node, ownItems_eq h k ob cs x os hobs]
+        simp [cntItems_append, Graph.ob]; omega
+
+/-- L1 for an outermost call. -/
+theorem addRemove_add (h : Heap) (k : HKey) (g : Graph) (extra : Bool) (x : W) (H : Hooks)
+    (hok : (addRemove h k false extra g x H).err = none) :
+    walkOk h extra g x = true ∧
+    (∀ o q, cnt (addRemove h k false extra g x H).H o q = cnt H o q + cntItems (hookList h k extra g x) o q) ∧
+    (WF H → WF (addRemove h k false extra g x H).H) := by
+  unfold addRemove at hok ⊢
+  rw [finish_err] at hok
+  rw [finish_ok _ _ hok]
+  exact walk_add h k g extra x H [] hok
 
 end TraitsVerif.Model.Obs
